@@ -5,12 +5,13 @@ station's Transport.Connect (dial and listen goroutines offering on connCh / err
 network paths D (client dial -> station listener) and L (station dial -> client listen socket) as three-step handshakes,
 the caller handleConnectingTpReg (statistics, hand-off to Proxy), and an environment SCRIPT fixed in the initial state
 (who starts first, which path forwards, ICMP or silence from an unbound client port, DNAT outcome, duplicate secret,
-wrong key, which path is held back).  Variants: Coord none (as found) / follow (intended), LeakOnRefuse TRUE (as found)
-/ FALSE (intended); conformance is held against the as-found variant, the divergences are reported in the notes.
+wrong key, which path is held back).  Variants: Coord none (as found) / follow (intended), LeakOnRefuse TRUE (as found) / FALSE
+(intended), CancelInSctp FALSE (as found) / TRUE (intended); conformance is held against the as-found variant, the divergences
+(D1 - D3, listed at the end of the module) are reported in the evidence notes with how often this run saw them.
 
 A   TLC exhaustive (every script x every interleaving, a context may expire at any moment): as found with the invariants
-    that hold for it + liveness (Terminates, ReturnsOnExpiry); intended with Agreement and NoSocketLeftBehind as well.
-    Non-vacuity: as found measured against each intended law must violate it; four deliberately broken instances
+    that hold for it + liveness (Terminates, ReturnsOnExpiry); intended with Agreement, NoSocketLeftBehind and
+    NoLingerUntilDeadline as well.  Non-vacuity: as found measured against each intended law must violate it (three runs); four deliberately broken instances
     (no deregistration on cancel, second connection kept, offer without ctx.Done, success counted twice) must violate.
 B   the outcome table: TLC enumerates, per script, every terminal state (Gen_DtlsConnect: timeouts last, held path
     released when nothing else can happen).  Each script is run on the REAL code - real ClientTransport (SetParams,
@@ -21,7 +22,8 @@ B   the outcome table: TLC enumerates, per script, every terminal state (Gen_Dtl
     computed for that script.  A mismatch is retried once, alone.
 C   the ordered event logs of those runs, of repeated unscripted races (both paths open, both calls at once) and of
     seeded random scripts with the unmodelled knobs varied (IPv6, DisableIRWorkaround, Unordered) are validated by
-    Trace_DtlsConnect (silent internal steps, every invariant on every state); one corrupted log must be rejected.
+    Trace_DtlsConnect (silent internal steps, every invariant on every state); two corrupted logs must be rejected.  These
+    extra runs are held to their outcome sets too (same repeat-once rule).
 D   caller level: the real handleConnectingTpReg drives the real transport for a real DecoyRegistration and hands the
     connection to the real Proxy (a message must come back from a covert echo server through DTLS/SCTP - Proxy - TCP),
     plus a scripted ConnectingTransport for the error classification; statistics calls, the 5 s context, its
@@ -49,6 +51,14 @@ AS_FOUND_INV = ["TypeOK", "AtMostOneHandoff", "HandedAuthentic", "KeyReleased", 
 SCR_KEYS = ("start", "pD", "pL", "nat", "dnat", "dup", "key", "prio")
 _ticket = threading.Lock()
 _count = threading.Lock()
+
+
+def lane(ctx, name):
+    """a view of ctx with a scratch directory of its own: ctx.tlc names its output file by a run count and the millisecond, two
+    threads would collide"""
+    c2 = copy.copy(ctx)
+    c2.scratch = ctx.sub("lane_" + name)
+    return c2
 
 
 def tlc(ctx, sdir, module, cfg, count=True, **kw):
@@ -95,25 +105,27 @@ def fmt_proj(p):
 # ------------------------------------------------------------------------------------------------ stage A
 def stage_a(ctx, sdirs, thorough):
     """three lanes: as found | intended | the instances that must violate"""
+    la, li, ln = lane(ctx, "a1"), lane(ctx, "a2"), lane(ctx, "a3")
+
     def as_found():
-        r = tlc(ctx, sdirs[0], "DtlsConnect.tla", "MC_DtlsConnect_thorough.cfg" if thorough else "MC_DtlsConnect.cfg", timeout=2400, workers=6)
+        r = tlc(la, sdirs[0], "DtlsConnect.tla", "MC_DtlsConnect_thorough.cfg" if thorough else "MC_DtlsConnect.cfg", timeout=2400, workers=6)
         ctx.require_design_ok(r, "DtlsConnect as found")
         return r
 
     def intended():
-        r2 = tlc(ctx, sdirs[1], "DtlsConnect.tla", "MC_DtlsConnect_intended.cfg" if thorough else "MC_DtlsConnect_intended_quick.cfg", timeout=2400, workers=5)
+        r2 = tlc(li, sdirs[1], "DtlsConnect.tla", "MC_DtlsConnect_intended.cfg" if thorough else "MC_DtlsConnect_intended_quick.cfg", timeout=2400, workers=5)
         ctx.require_design_ok(r2, "DtlsConnect intended")
         return r2
 
     def nonvac():
         out = []
         for cfg, inv, what in DIVERGENCES:
-            v = tlc(ctx, sdirs[2], "DtlsConnect.tla", cfg, timeout=300, workers=2, count=False)
+            v = tlc(ln, sdirs[2], "DtlsConnect.tla", cfg, timeout=300, workers=2, count=False)
             if v["inv"] != inv:
                 raise vlib.InfraError("%s should violate %s, TLC says %s" % (cfg, inv, v["inv"]))
             out.append("as found violates %s (%s)" % (inv, what))
         for cfg, inv in BROKEN:
-            v = tlc(ctx, sdirs[2], "DtlsConnect.tla", cfg, timeout=300, workers=2, count=False)
+            v = tlc(ln, sdirs[2], "DtlsConnect.tla", cfg, timeout=300, workers=2, count=False)
             if v["inv"] != inv:
                 raise vlib.InfraError("%s should violate %s, TLC says %s" % (cfg, inv, v["inv"]))
             out.append("%s violates %s" % (cfg, inv))
@@ -226,39 +238,40 @@ def judge(ctx, tab, row):
     return None
 
 
-def stage_b(ctx, tab, scripts, thorough):
-    runs, summ = run_transport(ctx, scripts, "b")
+def run_judged(ctx, tab, scripts, tag, what):
+    """Runs the scripts on the real transport and holds every run to its outcome set.  A run that is not in its set is repeated
+    once, alone (timing: the driver orders the two calls and releases held paths by waiting; a loaded machine can break that
+    order); only a script that fails twice is reported.  Returns (rows - a repeated run replaces its first try -, info)."""
+    runs, summ = run_transport(ctx, scripts, tag)
     if summ is None:
         return [], {}
-    bad = []
-    for row in runs:
-        v = judge(ctx, tab, row)
-        if v:
-            bad.append((row, v))
-    ctx.log("B: %d scripts run on the real transport in %.1fs, %d not in their outcome set at first try" % (len(runs), summ["wall_ms"] / 1000.0, len(bad)))
-    retried = 0
+    bad = [(row, v) for row, v in ((row, judge(ctx, tab, row)) for row in runs) if v]
+    ctx.log("%s: %d scripts run on the real transport in %.1fs, %d not in their outcome set at first try" % (what, len(runs), summ["wall_ms"] / 1000.0, len(bad)))
+    first_try = []
     if bad:
         again = []
         for row, v in bad[:40]:
             s = dict(row["script"])
             s["id"] = s["id"] + "r"
+            s["gc"] = False
             again.append(s)
-        retried = len(again)
-        runs2, _ = run_transport(ctx, again, "b_retry", par=3)
+        runs2, _ = run_transport(ctx, again, tag + "_retry", par=3)
         by = {r["id"]: r for r in runs2}
         for row, v in bad[:40]:
             r2 = by.get(row["script"]["id"] + "r")
-            if r2 is None:
-                continue
-            v2 = judge(ctx, tab, r2)
+            v2 = judge(ctx, tab, r2) if r2 is not None else v
             if v2:
                 ctx.violation(v2[0], v2[1], {"first": v[2] if isinstance(v[2], dict) else None, "second": v2[2]})
+            else:
+                first_try.append({"script": code({k: row["script"][k] for k in SCR_KEYS}), "first_try": v[0][:400],
+                                  "client_error": row.get("cerr"), "station_error": row.get("serr")})
+                runs[runs.index(row)] = r2
         for row, v in bad[40:]:
             ctx.violation(v[0], v[1], v[2])
     if summ.get("certs_left") or summ.get("chans_left"):
         ctx.violation("listener:entries-left:%s/%s" % (summ.get("certs_left"), summ.get("chans_left")),
                       "after all scenarios the shared listener still holds %s certificate / %s channel entries" % (summ.get("certs_left"), summ.get("chans_left")), summ)
-    return runs, {"scripts": len(runs), "mismatch_first_try": len(bad), "retried": retried, "wall_s": summ["wall_ms"] / 1000.0,
+    return runs, {"scripts": len(runs), "mismatch_first_try": len(bad), "passed_when_repeated": first_try, "wall_s": summ["wall_ms"] / 1000.0,
                   "late_callbacks": summ.get("late_callbacks"), "namespace": summ.get("ns")}
 
 
@@ -315,7 +328,8 @@ def stage_c(ctx, rows, thorough):
     with _ticket:
         dirs = [ctx.spec_copy("DtlsConnect") for _ in chunks]
     with ThreadPoolExecutor(max_workers=len(chunks)) as ex:
-        res = list(ex.map(lambda a: validate_list(ctx, a[0], a[1]), list(zip(dirs, chunks))))
+        lanes = [lane(ctx, "c%d" % i) for i in range(len(chunks))]
+        res = list(ex.map(lambda a: validate_list(a[2], a[0], a[1]), list(zip(dirs, chunks, lanes))))
     nev = sum(x[0] for x in res)
     relaxed = sum(x[2] for x in res)
     rejected = [y for x in res for y in x[1]]
@@ -426,7 +440,9 @@ def judge_handler(ctx, tab, row):
         if names != ["created", "discarded"]:
             bad("stats-fake-conn", "statistics calls %s" % names)
         out[:] = [o for o in out if "stats-terminal-count" not in o[0]]
-    if cls == "conn":
+    if cls == "conn" and row.get("still_open"):
+        pass        # the station has not seen the client's close yet (a lost close_notify is noticed by the 30 s heartbeat watchdog only)
+    elif cls == "conn":
         if names.count("discarded") != 1:
             bad("stats-discarded", "statistics calls %s: AddSuccessfulToDiscardedConnecting not called exactly once after the session" % names)
         if con["closes"] < 1:
@@ -439,7 +455,7 @@ def judge_handler(ctx, tab, row):
         want = "src" if x["k"] == "dialOK" else "reg"
         if x["key"] != want or x["tp"] != "dtls":
             bad("stats-key", "statistics call %s keyed by %s/%s" % (x["k"], x["key"], x["tp"]))
-    if not row.get("ctx_after"):
+    if not row.get("ctx_after") and not row.get("still_open"):
         bad("context-not-cancelled", "the context given to Connect is still live after the goroutine finished")
     if cls == "deadline" and not (4800 <= con["ret_ms"] <= 6000):
         bad("timeout-bound", "Connect returned a deadline error after %s ms" % con["ret_ms"])
@@ -452,8 +468,13 @@ def judge_handler(ctx, tab, row):
         allowed = allowed + tab.get(skey(dict(sc, start="X")), [])
         s_real = terms[0].replace("OK", "") if terms and terms[0] in ("dialOK", "listenOK") else {"deadline": "timeout", "error": "err"}.get(cls, cls)
         c_real = row.get("c")
-        ok = [o for o in allowed if o["s"] == s_real and (o["c"] in ("dial", "listen")) == (c_real == "conn")]
-        if not ok:
+        ok = [o for o in allowed if o["s"] == s_real and ((o["c"] in ("dial", "listen")) == (c_real == "conn") or c["covert"] == "refuse")]
+        # (covert "refuse": Proxy returns at once and the station closes the session while the client's attempt is still finishing its
+        # own set-up, which can then fail - the client's side is not compared.  A run in which nothing completed within the 5 s is a
+        # legitimate, if slow, environment at this level: only counted; the transport-level stage B holds the code to completing.)
+        if not ok and s_real == "timeout" and c_real == "err":
+            row["slow"] = True
+        elif not ok:
             bad("outcome", "station ended %s, client %s; the specification allows %s" % (s_real, c_real, sorted({(o["s"], o["c"]) for o in allowed})))
         elif cls == "conn" and c_real == "conn":
             want_echo = {"ok"} if c["covert"] == "echo" else {"fail:closed", "fail:write", "fail:bytes"}
@@ -497,7 +518,8 @@ def stage_d(ctx, tab, thorough):
             nbad += 1
         names = tuple(x["k"] for x in (row.get("stats") or []) if x["k"] != "auth")
         kinds[names] += 1
-    if summ[0]["active_conns_delta"] != 0:
+    still = sum(1 for r in rr if r.get("still_open"))
+    if summ[0]["active_conns_delta"] != still:
         ctx.violation("handler:active-conns-gauge:%+d" % summ[0]["active_conns_delta"],
                       "Stat().activeConns moved by %+d over sessions that all ended (AddConn / CloseConn not balanced)" % summ[0]["active_conns_delta"], summ[0])
     echo_ok = sum(1 for r in rr if r.get("echo") == "ok")
@@ -505,7 +527,9 @@ def stage_d(ctx, tab, thorough):
     if echo_ok < 4:
         raise vlib.InfraError("caller-level stage is vacuous: only %d sessions carried a message through Proxy" % echo_ok)
     ctx.sample({"stage": "D", "case": rr[0]["case"], "connect": rr[0]["connect"], "stats": [(x["k"], x["key"]) for x in rr[0].get("stats") or []], "echo": rr[0].get("echo")})
-    return {"cases": len(rr), "violations": nbad, "echo_through_proxy": echo_ok, "stat_sequences": {" > ".join(k): v for k, v in kinds.items()},
+    return {"cases": len(rr), "violations": nbad, "echo_through_proxy": echo_ok, "nothing_completed_in_5s_though_possible": sum(1 for r in rr if r.get("slow")),
+            "max_session_teardown_ms": max([r.get("quiesce_ms", 0) for r in rr] or [0]),
+            "sessions_the_station_still_held_8s_after_the_client_closed": still, "stat_sequences": {" > ".join(k): v for k, v in kinds.items()},
             "active_conns_delta": summ[0]["active_conns_delta"]}
 
 
@@ -520,10 +544,10 @@ def run(ctx):
     tab = outcome_table(ctx, sdir)
     nout = sum(len(v) for v in tab.values())
     ctx.log("B: outcome table: %d scripts, %d terminal states" % (len(tab), nout))
-    fd = pool.submit(stage_d, ctx, tab, thorough)
+    fd = pool.submit(stage_d, lane(ctx, "d"), tab, thorough)
 
     scripts = pick_scripts(ctx, tab, thorough)
-    runs, binfo = stage_b(ctx, tab, scripts, thorough)
+    runs, binfo = run_judged(ctx, tab, scripts, "b", "B")
     if not runs and ctx.violations:
         pool.shutdown(wait=True)
         return
@@ -531,12 +555,12 @@ def run(ctx):
     # ---- C: more real runs that do not come from the table's scripts' canonical settings: unscripted races and random knobs
     rng = random.Random(ctx.seed * 104729 + 5)
     extra = []
-    nrace = 300 if thorough else 60
+    nrace = 1500 if thorough else 60
     for i in range(nrace):
         extra.append({"id": "x%d" % i, "fam": "v6" if i % 9 == 0 else "v4", "start": "X", "pD": "open", "pL": "open", "nat": "silent" if i % 2 else "icmp",
                       "dnat": "ok", "dup": False, "key": "good", "prio": "none", "ir": i % 3 == 0, "unord": i % 5 == 0, "ts": 2000, "tc": 2500})
     keys = sorted(tab)
-    for i in range(80 if thorough else 24):
+    for i in range(200 if thorough else 24):
         s = json.loads(rng.choice(keys))
         s.update({"id": "r%d" % i, "fam": fam_for(tab, s, rng, 0.6), "ir": rng.random() < 0.5, "unord": rng.random() < 0.5,
                   "ts": rng.choice([1700, 2000, 2300]), "tc": rng.choice([1500, 2500])})
@@ -545,13 +569,8 @@ def run(ctx):
     for i, st in enumerate(("S", "S", "X")):
         extra.append({"id": "g%d" % i, "fam": "v4", "start": st, "pD": "open" if i else "drop", "pL": "open", "nat": "icmp", "dnat": "ok", "dup": False,
                       "key": "good", "prio": "none", "ts": 900, "tc": 1200, "gc": True})
-    runs2, summ2 = run_transport(ctx, extra, "c")
-    viol2 = 0
-    for row in runs2:
-        v = judge(ctx, tab, row)
-        if v:
-            viol2 += 1
-            ctx.violation(v[0], v[1], v[2])
+    runs2, cxinfo = run_judged(ctx, tab, extra, "c", "C")
+    viol2 = cxinfo.get("mismatch_first_try", 0)
     allrows = [r for r in runs + runs2 if "fin" in r]
     split = [r for r in allrows if r.get("data") == "fail"]
     races = [r for r in runs2 if r["id"].startswith("x")]
@@ -570,7 +589,7 @@ def run(ctx):
               as_found_states=a["as_found"]["distinct"], intended_states=a["intended"]["distinct"])
     outcomes = collections.Counter((r["c"], r["s"], r["data"]) for r in allrows if "c" in r)
     ctx.stage("B", table_scripts=len(tab), table_terminal_states=nout, **binfo)
-    ctx.stage("C", extra_runs=len(runs2), extra_not_in_outcome_set=viol2, races=len(races),
+    ctx.stage("C", extra_runs=len(runs2), extra_not_in_outcome_set_first_try=viol2, extra_passed_when_repeated=cxinfo.get("passed_when_repeated"), races=len(races),
               races_two_sessions=sum(1 for r in races if r.get("data") == "fail"), **cinfo)
     ctx.stage("D", **d)
     ctx.stage("observed", outcomes={"%s/%s/%s" % k: v for k, v in sorted(outcomes.items())}, two_sessions_runs=len(split),
